@@ -21,6 +21,7 @@ MCLen(a) == CASE a = "ia64" -> 37 [] a = "riscv" -> 21 [] a = "x86" -> 14 [] OTH
 MCOffsets(a) == {<<0, 0>>, H32(\hFFFF, 65536 - 16)}
 MCData(a) == {Sample(a, MCLen(a), sd, 0) : sd \in SampleSeeds}
              \cup (IF a = "x86" THEN {X86Pair(d, 232, 233, m, 255, 0) : d \in {1, 3, 5}, m \in {0, 1}} ELSE {})
+             \cup (IF a = "arm64" THEN {Arm64Gate} ELSE {})
              \cup (IF a \in {"arm", "riscv", "armthumb"} THEN {Sample(a, MCLen(a), sd + 100, 1) : sd \in SampleSeeds} ELSE {})
 
 MCInit == /\ arch \in MCArchs
